@@ -202,6 +202,13 @@ Definition h_update (p : profile) (h : hasher) (data : list N) : option hasher :
     let '(b, blocks) := input_block (h_buffer h) data in
     Some (Hasher (fold_left compressor_input blocks (h_state h)) b (wrap 64 n)).
 
+(** a sequence of [update] calls *)
+Fixpoint h_updates (p : profile) (h : hasher) (calls : list (list N)) : option hasher :=
+  match calls with
+  | [] => Some h
+  | d :: r => match h_update p h d with None => None | Some h' => h_updates p h' r end
+  end.
+
 (** [pad_with::<Iso7816>()]: [None] is [Err(PadError)] *)
 Definition pad_with_iso7816 (b : bb) : option (bb * list N) :=
   if (bb_size b <=? bb_pos b)%nat then None
